@@ -39,6 +39,7 @@ def run_server(proto, world, client_fragments, ctx=None):
     rt = vnet.real_threading
     saved_rt = (rt.Thread, rt.Timer)
     crashed = []
+    vnet.ACTIVE_SCHED[0] = sched
     try:
         # any thread the code under test creates anywhere joins the schedule
         rt.Thread = fake_thr.Thread
@@ -66,6 +67,7 @@ def run_server(proto, world, client_fragments, ctx=None):
         main = sched.new_thread(body, "server")
         sched.run_main(main)
     finally:
+        vnet.ACTIVE_SCHED[0] = None
         rt.Thread, rt.Timer = saved_rt
         (socketserver.socket, socketserver._ServerSelector, socketserver.threading, _thr) = saved
         if _thr is not None:
